@@ -47,7 +47,8 @@ def _get_default_getter():
 
 
 def get_getter_for(sid, attribute=None, config=None):
-    getters_by_type = {'prj': None, 'pr': None, 'ct': None, 'l_ib': None, 'default': _get_default_getter()}
+    # 'ct__reel' (a third-level type) has no Getter while its siblings of the same depth (pr__fam, l_ib__item) have the default one
+    getters_by_type = {'prj': None, 'pr': None, 'ct': None, 'l_ib': None, 'ct__reel': None, 'default': _get_default_getter()}
     if sid.type in getters_by_type:
         return getters_by_type.get(sid.type)
     return getters_by_type.get('default')
